@@ -1,6 +1,7 @@
 package logql_transpiler_v2
 
 import (
+	"fmt"
 	"github.com/metrico/qryn/reader/logql/logql_transpiler_v2/shared"
 	"time"
 )
@@ -17,6 +18,19 @@ func (m *FixPeriodPlanner) Process(ctx *shared.PlannerContext,
 	in chan []shared.LogEntry) (chan []shared.LogEntry, error) {
 	_from := ctx.From.UnixNano()
 	_to := ctx.To.UnixNano()
+	if ctx.Step <= 0 {
+		return nil, fmt.Errorf("zero or negative query resolution step widths are not accepted")
+	}
+	if m.Duration <= 0 {
+		return nil, fmt.Errorf("zero or negative range durations are not accepted")
+	}
+	if _to < _from {
+		return nil, fmt.Errorf("end timestamp must not be before start time")
+	}
+	if (_to-_from)/ctx.Step.Nanoseconds() > 11000 {
+		return nil, fmt.Errorf("exceeded maximum resolution of 11,000 points per timeseries. " +
+			"Try decreasing the query resolution (?step=XX)")
+	}
 	ctx.From = ctx.From.Truncate(m.Duration)
 	ctx.To = ctx.To.Truncate(m.Duration).Add(m.Duration)
 
@@ -56,6 +70,15 @@ func (m *FixPeriodPlanner) Process(ctx *shared.PlannerContext,
 
 	go func() {
 		defer close(res)
+		defer func() {
+			if err := recover(); err != nil {
+				res <- []shared.LogEntry{{Err: fmt.Errorf("panic: %v", err)}}
+				go func() {
+					for range _in {
+					}
+				}()
+			}
+		}()
 		for entries := range _in {
 			for _, entry := range entries {
 				if !started || entry.Fingerprint != fingerprint {
